@@ -31,7 +31,7 @@ type kStep struct {
 	Addr string `json:"addr"`
 	// Env: what is at the socket path before the step: none | stale | file | dir | fulldir | noparent | foreign
 	Env string `json:"env"`
-	// Mode: bind | serve | listen
+	// Mode: bind | serve | listen | rebind (Bind twice, then DoListen)
 	Mode string `json:"mode"`
 }
 
@@ -122,7 +122,7 @@ func kGen(seed int64, dir string) kHistory {
 			tail = pick(";", ";mode=0600", ";a=b;c=d", ";;", ";unix:@x")
 		}
 		var st kStep
-		st.Mode = pick("bind", "serve", "serve", "listen")
+		st.Mode = pick("bind", "serve", "serve", "listen", "rebind")
 		st.Env = "none"
 		switch r.Intn(12) {
 		case 0, 1, 2, 3:
@@ -289,13 +289,27 @@ func (k *kRunner) step(i int, st kStep) bool {
 	serving := false
 	var bindErr error
 	switch st.Mode {
-	case "bind", "serve":
+	case "bind", "serve", "rebind":
 		err, ok := k.guarded(i, "Bind", func() error { return k.svc.Bind(ctx, st.Addr) })
 		if !ok {
 			return false
 		}
+		if st.Mode == "rebind" && err == nil && p != "" {
+			// a second Bind of the same filesystem path without a Shutdown in between
+			// replaces the socket; the first listener leaks and is closed by hand
+			// (unlink-on-close disabled: the path now belongs to the second one)
+			first, _ := k.svc.GetListener()
+			err, ok = k.guarded(i, "second Bind", func() error { return k.svc.Bind(ctx, st.Addr) })
+			if !ok {
+				return false
+			}
+			if ul, isUnix := first.(*net.UnixListener); isUnix {
+				ul.SetUnlinkOnClose(false)
+				ul.Close()
+			}
+		}
 		bindErr = err
-		if err == nil && st.Mode == "serve" {
+		if err == nil && (st.Mode == "serve" || st.Mode == "rebind") {
 			serving = true
 			go func() { served <- k.svc.DoListen(ctx, 0) }()
 		}
